@@ -92,10 +92,10 @@ class RecList(list):
     """a list that records how it is accessed"""
     log = None
     def __getitem__(self, k):
-        self.log.append(('get', 'slice' if isinstance(k, slice) else 'index'))
+        self.log.append(('get', 'slice' if isinstance(k, slice) else 'index', k.indices(len(self))[:2] if isinstance(k, slice) else (k, k + 1)))
         return list.__getitem__(self, k)
     def __setitem__(self, k, v):
-        self.log.append(('set', 'slice' if isinstance(k, slice) else 'index'))
+        self.log.append(('set', 'slice' if isinstance(k, slice) else 'index', k.indices(len(self))[:2] if isinstance(k, slice) else (k, k + 1)))
         return list.__setitem__(self, k, v)
 
 
@@ -140,6 +140,13 @@ def atomicity_cases(rng, n):
             if ln > 1 and (len(data) != 1 or data[0][1] != 'slice'):
                 problems.append(dict(request=L.describe_req(r), accesses=rec.log[:12],
                                      problem='a %d-element %s is not one slice operation on the backing list' % (ln, 'write' if kind == 'set' else 'read')))
+                if len(problems) >= 2:
+                    break
+            if kind == 'set' and data and any(x[2] != (s, s + ln) for x in data):
+                # a store that covers more than the addressed elements is a read-modify-write of its neighbours: a concurrent
+                # write to those neighbours between the read and the store would be lost
+                problems.append(dict(request=L.describe_req(r), accesses=rec.log[:12],
+                                     problem='a write of elements [%d,%d) stores list range %r: elements it does not address are rewritten' % (s, s + ln, [x[2] for x in data])))
                 if len(problems) >= 2:
                     break
         final = list(att.value)
@@ -194,6 +201,62 @@ def session(port, sid, rounds, seed, out):
     except Exception as e:
         problems.append('session %d: %s: %s' % (sid, type(e).__name__, str(e)[:200]))
     out[sid] = problems
+
+
+def listening(port):
+    """is something listening on 127.0.0.1:port?  (read from /proc: connecting would itself be the simulator's first session)"""
+    want = '0100007F:%04X' % port
+    try:
+        for line in open('/proc/net/tcp').read().splitlines()[1:]:
+            f = line.split()
+            if f[1] == want and f[3] == '0A':
+                return True
+    except OSError:
+        pass
+    return False
+
+
+def cold_start(ntags, delays):
+    """A freshly started simulator with many tags: several sessions whose FIRST requests overlap (the tags are created on the first
+    request).  Every session must see every configured tag: a 'path destination unknown' for a configured tag is explained by no
+    sequential order of the sessions.  -> problems"""
+    from cpppo.server.enip import client
+    s = socket.socket(); s.bind(('127.0.0.1', 0)); port = s.getsockname()[1]; s.close()
+    code = ("import sys; sys.setswitchinterval(1e-4); from cpppo.server.enip.main import main; "
+            "sys.exit(main(argv=['--no-udp','-a','127.0.0.1:%d'] + ['T%%d=DINT[2]' %% i for i in range(%d)]))" % (port, ntags))
+    proc = subprocess.Popen([sys.executable, '-c', code], stdout=subprocess.DEVNULL, stderr=subprocess.DEVNULL, cwd='/')
+    problems, out = [], {}
+    try:
+        for _ in range(300):
+            if listening(port):
+                break
+            time.sleep(0.05)
+        else:
+            raise core.HarnessError('simulator subprocess did not start listening')
+
+        def sess(i, delay):
+            time.sleep(delay)
+            try:
+                with client.connector(host='127.0.0.1', port=port, timeout=20) as conn:
+                    ops = list(client.parse_operations(['T%d[0-1]' % (ntags - 1), 'T0[1]', 'T%d[0]' % (ntags // 2)]))
+                    out[i] = [(sts, list(val) if hasattr(val, '__iter__') else val) for _, _, _, _, sts, val in conn.operate(ops, depth=0, timeout=20)]
+            except Exception as e:
+                out[i] = '%s: %s' % (type(e).__name__, str(e)[:120])
+        ths = [threading.Thread(target=sess, args=(i, d), daemon=True) for i, d in enumerate(delays)]
+        for t in ths:
+            t.start()
+        for t in ths:
+            t.join(60)
+        for i, d in enumerate(delays):
+            if out.get(i) != [(0, [0, 0]), (0, [0]), (0, [0])]:
+                problems.append('session %d (first request %d ms after the first session\'s) got %r for reads of three configured tags' % (i, d * 1000, out.get(i)))
+    finally:
+        proc.terminate()
+        try:
+            proc.wait(5)
+        except Exception:
+            proc.kill()
+    return problems
 
 
 def stress(nsessions, rounds, switch, seed):
@@ -268,6 +331,11 @@ def run(ctx):
     for pm in stress_problems[:3]:
         nbad += 1
         ctx.violation(dict(stress=pm, sessions=4 if not ctx.thorough else 6, switch_interval=1e-5), 'concurrent sessions: ' + pm)
+    # E. cold start: the first requests of several sessions overlap the creation of the tags
+    for delays in ([(0, 0.01, 0.03, 0.08)] if not ctx.thorough else [(0, 0.005, 0.02, 0.05), (0, 0.01, 0.03, 0.08), (0, 0, 0.1, 0.2)]):
+        for pm in cold_start(1500, delays)[:2]:
+            nbad += 1
+            ctx.violation(dict(scenario='cold start with 1500 tags', problem=pm), 'concurrent sessions at start-up: ' + pm)
     # D. sessions sharing one forwarded route (front simulator -> delaying proxy -> back simulator): the reply to a forwarded request
     # that timed out for one session must never be handed to the next session's forwarded request
     from props import c06
